@@ -97,7 +97,8 @@ def cases(draw, tier='quick'):
             'scale': draw(st.sampled_from([0.0, 1.0, 1.0, 10.0, 1e3])) if mode.startswith('norm') else draw(st.sampled_from([0.5, 1.0, 3.0])),
             'total': draw(st.one_of(st.sampled_from([1.0, 1, 100, 0.01, 1e6]), st.floats(0.01, 1e4))),
             'total2': draw(st.sampled_from([None, None, 40.0, 0.5])),
-            'iters': draw(st.sampled_from([1, 2, 10, 100])), 'inner_pots': draw(st.booleans())}
+            'iters': draw(st.sampled_from([1, 2, 10, 100])), 'inner_pots': draw(st.booleans()),
+            'minimal': draw(st.sampled_from([True, True, False]))}
 
 
 def strategy(tier):
@@ -141,7 +142,7 @@ def run_case(case):
         return mbi.CliqueVector(d)
 
     if mode == 'norm_rg':
-        rg = mbi.RegionGraph(domain, cliques, total, convex=False, iters=case['iters'])
+        rg = mbi.RegionGraph(domain, cliques, total, convex=False, iters=case['iters'], minimal=case.get('minimal', True))
         pot = pots_for(rg.cliques, None if case['inner_pots'] else set(cliques))
         mu = rg.belief_propagation(pot)
         valid_tables(out, 'gbp', mu, rg.cliques, total)
@@ -163,7 +164,8 @@ def run_case(case):
                     out.fail('invalid:project', 'FactorGraph.project(%s) sums to %r' % (a, float(np.sum(v))))
         out.nontrivial = has_cycle(cliques)
     elif mode in ('gbp', 'gbp_deep'):
-        rg = mbi.RegionGraph(domain, cliques, total, convex=False, iters=200)
+        rg = mbi.RegionGraph(domain, cliques, total, convex=False, iters=200, minimal=case.get('minimal', True))
+        if not case.get('minimal', True): out.classes.append('minimal=False')
         pot = pots_for(rg.cliques, set(cliques))
         mu = rg.belief_propagation(pot)
         P, _ = oracles.joint(attrs, shape, [(list(r), pot[r].values) for r in cliques], total)
@@ -183,8 +185,14 @@ def run_case(case):
         if case['total2'] is not None:
             fg.total = case['total2']; total = float(case['total2'])      # LocalInference re-assigns .total on oracle objects
             out.classes.append('total_reassigned')
+        saved = {r: pot[r].values.copy() for r in cliques}
         mu = fg.belief_propagation(pot)
-        P, _ = oracles.joint(attrs, shape, [(list(r), pot[r].values) for r in cliques], total)
+        if case['seed'] % 2:
+            mu = fg.belief_propagation(pot)        # estimation calls the oracle again and again with the same potentials object
+            out.classes.append('lbp_called_twice')
+        if any(not np.array_equal(pot[r].values, saved[r]) for r in cliques):
+            return out.fail('mutated:potentials', "belief_propagation modified the caller's potentials")
+        P, _ = oracles.joint(attrs, shape, [(list(r), saved[r]) for r in cliques], total)
         valid_tables(out, 'lbp', mu, cliques, total)
         if out.ok:
             for r in cliques:
